@@ -699,7 +699,7 @@ pub fn run(tier: &str, seed: u64, s: &mut Sink) {
         let e = ev_tie(&mut r, true);
         emit_all(s, &mut r, "padtie-doc", &e, nrot);
     }
-    let n_random = if thorough { 300 } else { 120 };
+    let n_random = if thorough { 300 } else { 220 };
     for _ in 0..n_random {
         let e = ev_random(&mut r);
         emit_all(s, &mut r, "random", &e, nrot);
@@ -719,7 +719,7 @@ pub fn run(tier: &str, seed: u64, s: &mut Sink) {
             emit_all(s, &mut r, "seam-merge", &e, nrot);
         }
     } else {
-        for _ in 0..60 {
+        for _ in 0..110 {
             let a = r.range(1, 12) as usize;
             let b = r.range(1, 12) as usize;
             let others = r.chance(1, 2);
@@ -727,7 +727,7 @@ pub fn run(tier: &str, seed: u64, s: &mut Sink) {
             emit_all(s, &mut r, if others { "seam-merge" } else { "seam" }, &e, nrot);
         }
     }
-    let n_edge = if thorough { 160 } else { 48 };
+    let n_edge = if thorough { 160 } else { 64 };
     for i in 0..n_edge {
         let e = ev_edge(&mut r, i);
         emit_all(s, &mut r, "edge", &e, if thorough { 8 } else { 3 });
